@@ -66,8 +66,16 @@ TOL_SURF = 1e-7     # repeated shapely overlays: observed floor 5e-11 (snap roun
 
 # ------------------------------------------------------------------------- generators
 def _direction(rng):
-    cls = str(rng.choice(["random", "axis", "near_axis"], p=[0.72, 0.23, 0.05]))
-    if cls == "random":
+    cls = str(rng.choice(["random", "axis", "near_axis", "in_plane"], p=[0.62, 0.23, 0.05, 0.1]))
+    if cls == "in_plane":
+        # a line inside a coordinate plane x = const / y = const / z = const
+        while True:
+            v = rng.normal(size=3)
+            v[int(rng.integers(0, 3))] = 0.0
+            v = v / np.linalg.norm(v)
+            if np.sum(np.abs(v) >= 0.05) == 2:
+                break
+    elif cls == "random":
         while True:
             v = rng.normal(size=3)
             v = v / np.linalg.norm(v)
